@@ -250,13 +250,19 @@ def run_c15_bmc(ck, tier, K=2):
 
 
 def run_c14_bmc(ck, tier, K=2):
+    if tier != 'quick':
+        # deeper history on a smaller command menu first (the solver's work grows with menu x depth)
+        _run_c14_bmc(ck, tier, K, 5, ['set', 'delete'], 'deep')
+        _run_c14_bmc(ck, tier, K, 4, ['set', 'get', 'delete', 'flush'], 'mid')
+    _run_c14_bmc(ck, tier, K, 3, ['set', 'get', 'delete', 'flush', 'append'] if tier == 'quick' else ['set', 'get', 'delete', 'flush', 'append', 'increment', 'add', 'replace'], 'wide')
+
+
+def _run_c14_bmc(ck, tier, K, k, cmds, tag):
     E = ck.E
     E.loop_bound = K + 3
-    k = 3 if tier == 'quick' else 4
-    cmds = ['set', 'get', 'delete', 'flush', 'append'] if tier == 'quick' else ['set', 'get', 'delete', 'flush', 'append', 'increment', 'add', 'replace']
     sysm = bmc_system(ck, K, cmds)
     tr, cs = sysm.unroll(k)
-    ck.bounds['bmc'] = f'histories of {k} commands over {K} keys from the empty store under the random policy; limit any u64 < 2^40 (incl. smaller than one record)'
+    ck.bounds['bmc-' + tag] = f'histories of {k} commands from {cmds} over {K} keys from the empty store under the random policy; limit any u64 < 2^40 (incl. smaller than one record), values <= 4 KiB'
     bad = []
     for t in range(k):
         tot1 = total_size(tr.S[t + 1].present, tr.S[t + 1].val, K)
